@@ -228,6 +228,11 @@ def generate(rng, i, tier):
         for s in sc["strategies"][1:]:
             s["listener_kwargs"] = {"inplay": rng.choice([True, False])} if rng.random() < 0.5 else {"seconds_to_start": 86400.0}
         sc["not_sharing"] = "stream"
+        if rng.random() < 0.5:
+            # ... and all of them as one event group: the streams of the same file are then replayed interleaved
+            for s in sc["strategies"]:
+                s["event_processing"] = True
+            sc["not_sharing"] = "stream-in-one-event-group"
         unclosed = [m for m in sc["markets"] if m["updates"][-1]["st"] != "CLOSED"]
         if unclosed and rng.random() < 0.8:
             # recorded files normally end with the closing update; the remaining fifth keeps truncated files
@@ -317,14 +322,26 @@ def execute(scenario):
             if out.harness_error or out.discarded or led is None or not hasattr(led, "rows"):
                 return out
             la = strategy_ledger(led, "A")
+            # market books shown to A (per market, in order). Not a clause of its own (C13's isolation sentence speaks about
+            # A's orders), but the discriminator for F30: there A is shown exactly the same books and only the matching differs
+            ca = {}
+            for c in calls.get("A") or []:
+                if c[0] in ("check", "book"):
+                    ca.setdefault(c[1], []).append((c[0], c[2]))
+            cn = sorted(c[1:] for c in calls.get("A") or [] if c[0] == "new")
+            if base is None:
+                base_calls, base_new = ca, cn
+            shown_differs = ca != base_calls
+            if cn != base_new:
+                out.probes["c13.observed.process_new_market_of_A_depends_on_co_runners"] += 1
             if base is None:
                 base = la
             elif la != base:
                 k = next((i for i, (x, y) in enumerate(zip(base, la)) if x != y), min(len(base), len(la)))
-                f30 = str(scenario.get("not_sharing", "")).startswith("stream") and run.monitors[2].replayed
+                f30 = str(scenario.get("not_sharing", "")).startswith("stream") and run.monitors[2].replayed and not shown_differs
                 if f30 and "A" in run.monitors[2].touched:
                     out.probes["c13.f30.order_of_A_changed_during_another_streams_replay"] += 1
-                out.violate(ID, "C13.isolation", "ledger-of-A-differs:" + ("separate-stream-on-the-same-file:" if f30 else "") + "+".join(vs), alone=str(base[k] if k < len(base) else None)[:500], together=str(la[k] if k < len(la) else None)[:500], orders_alone=len(base), orders_together=len(la))
+                out.violate(ID, "C13.isolation", "ledger-of-A-differs:" + ("separate-stream-on-the-same-file:" if f30 else "A-was-shown-different-market-books:" if shown_differs else "") + "+".join(vs), alone=str(base[k] if k < len(base) else None)[:500], together=str(la[k] if k < len(la) else None)[:500], orders_alone=len(base), orders_together=len(la))
             if len(vs) > 1:
                 sel_a = set((r[1], r[2]) for r in la)
                 for other in vs:
